@@ -123,7 +123,7 @@ def main():
     shape_attrs = {}
     for sh in data["shapes"]:
         UNIVERSE.update(sh["attrs"].keys())
-    UNIVERSE.update(["ID", "VT", "EVT", "TT", "ET", "M", "SchemaTypeExpr", "Nesting"])
+    UNIVERSE.update(["L", "ID", "VT", "EVT", "TT", "ET", "M", "SchemaTypeExpr", "Nesting"])
     for sh in data["shapes"]:
         sid = sh["id"]
         attrs = dict(sh["attrs"])
@@ -142,6 +142,7 @@ def main():
         if attrs["Kind"] == "Primitive": attrs["SchemaTypeExpr"] = prim_expr()
         elif attrs["Kind"] in ("PrimitiveList", "PrimitiveMap"): attrs["SchemaTypeExpr"] = "%s{ElemType: %s}" % (attrs["TT"], prim_expr())
         else: attrs["SchemaTypeExpr"] = "nil"
+        attrs["L"] = "1" if attrs.get("IsMap") == "true" else "0"
         attrs["Nesting"] = {"Object": "Single", "ObjectList": "List", "ObjectMap": "Map"}.get(attrs["Kind"], "")
         shape_attrs[sid] = attrs
         body = sh["struct_def"] + "\n"
